@@ -19,7 +19,7 @@ LEVEL_TEXT["C12"] = (
 )
 
 PROPS["C12"] = {
-    "gen": ["Cmplx", "StepsBase", "StepsArray", "StepsAdaptive"],
+    "gen": ["Cmplx", "StepsBase", "StepsArray", "StepsAdaptive", "CtorAdaptive"],
     "lean_props": ["DspVerif.Props.C12", "DspVerif.Props.C12More", "DspVerif.Props.C12Gen"],
     "harness": [{"src": "c12.cpp", "cfg": "rel", "tol": {"lms": (1e-12, 0.0), "rls": (1e-9, 0.0)}}],
     "rule": "per type (real, complex) and filter (LMS, NLMS, RLS): boundary scenarios (zero input, locked from the start, empty calls, frames of len-1/len/len+1); "
